@@ -102,6 +102,21 @@ func c02States(seed int64, v int, thorough bool) (states []c02State) {
 			emit(fmt.Sprintf("rot%d", k))
 		}
 	}
+	// bursts: one side sends several messages in a row, so that some arrive under its previous key id; the other
+	// side's next message is the moment at which it may (not) disclose keys of a pair it still accepts
+	for i := 0; i < 2; i++ {
+		for k := 0; k < 3; k++ {
+			r := w.P[i].Send([]byte(fmt.Sprintf("burst %d/%d", i, k)))
+			watch(r.Out)
+			w.push(i, r.Out)
+		}
+		flush()
+		r := w.P[1-i].Send([]byte("reply to the burst"))
+		watch(r.Out)
+		w.push(1-i, r.Out)
+		flush()
+		emit(fmt.Sprintf("burst%c", 'A'+i))
+	}
 	// second session: keys of the first are "foreign"
 	r := w.P[0].End()
 	w.push(0, r.Out)
@@ -536,7 +551,7 @@ func init() {
 			return nil
 		},
 		Run: func(r *verifReport) {
-			r.Rule = "session states at several ratchet positions and in a second session (v2, v3) × every kind of data message in flight (text either way, SMP, disconnect, extra key) × single deviations: EVERY raw byte position × xor {01,80,ff}, EVERY truncation length, extension by 1/4 bytes inside and after the authenticated part, consistent re-encodings (next D-H key with 1/2/7 leading zero bytes, ciphertext lengthened/shortened with its length word adjusted), base64 character substitutions, and field substitutions (key ids ±1 / retired pair, counter ±1, next DH, flag, ciphertext swapped or bit-flipped) with the MAC left alone AND recomputed under every MAC key disclosed on the wire so far (both sessions) and unrelated keys; each delivered to a clone of the receiver. Reference verdict: authentic ⇔ header+authenticated body+MAC byte-identical to the genuine message. Non-authentic ⇒ no plaintext, no data-message reply, no SMP/security/key event, message and SMP state unchanged; authentic ⇒ delivered exactly. Plus: cleartext lines (plain, whitespace-tagged, OTR-looking) injected once and twice into sessions started by query or by whitespace tag, fresh / after traffic / finished, and into plaintext conversations that require encryption: whatever Receive returns must be flagged by a received-unencrypted event carrying the same text"
+			r.Rule = "session states at several ratchet positions, after bursts of three messages in a row from either side, and in a second session (v2, v3) × every kind of data message in flight (text either way, SMP, disconnect, extra key) × single deviations: EVERY raw byte position × xor {01,80,ff}, EVERY truncation length, extension by 1/4 bytes inside and after the authenticated part, consistent re-encodings (next D-H key with 1/2/7 leading zero bytes, ciphertext lengthened/shortened with its length word adjusted), base64 character substitutions, and field substitutions (key ids ±1 / retired pair, counter ±1, next DH, flag, ciphertext swapped or bit-flipped) with the MAC left alone AND recomputed under every MAC key disclosed on the wire so far (both sessions) and unrelated keys; each delivered to a clone of the receiver. Reference verdict: authentic ⇔ header+authenticated body+MAC byte-identical to the genuine message. Non-authentic ⇒ no plaintext, no data-message reply, no SMP/security/key event, message and SMP state unchanged; authentic ⇒ delivered exactly. Plus: cleartext lines (plain, whitespace-tagged, OTR-looking) injected once and twice into sessions started by query or by whitespace tag, fresh / after traffic / finished, and into plaintext conversations that require encryption: whatever Receive returns must be flagged by a received-unencrypted event carrying the same text"
 			r.Assumptions = []string{"forgeries use only keys an attacker can read off the wire (disclosed MAC keys) or invent; the genuine current MAC key is used only by the unchanged control", "multi-byte changes beyond the listed field substitutions are not covered"}
 			type job struct {
 				st c02State
